@@ -143,17 +143,17 @@ theorem stockholm_patched_witnesses :
 
 /-- `#NEXUS\n[` — unterminated comment: `consumeComment` spins at EOF -/
 theorem nexus_counterexample_hang :
-    Nexus.parse ⟨false, false, false, false, false, false⟩ {} [35, 78, 69, 88, 85, 83, 10, 91] = .hang := by decide
+    Nexus.parse ⟨false, false, false, false, false, false, false⟩ {} [35, 78, 69, 88, 85, 83, 10, 91] = .hang := by decide
 /-- a matrix row without residues: success with zero columns -/
 theorem nexus_counterexample_zero_columns :
-    Nexus.parse ⟨false, false, false, false, false, false⟩ {} [35, 78, 69, 88, 85, 83, 10, 98, 101, 103, 105, 110, 32, 100, 97, 116, 97, 59, 10, 109, 97, 116, 114, 105, 120, 10, 97, 32, 10, 59, 10, 101, 110, 100, 59, 10] = .ok ⟨1, 0, [([97], [])]⟩ := by decide
+    Nexus.parse ⟨false, false, false, false, false, false, false⟩ {} [35, 78, 69, 88, 85, 83, 10, 98, 101, 103, 105, 110, 32, 100, 97, 116, 97, 59, 10, 109, 97, 116, 114, 105, 120, 10, 97, 32, 10, 59, 10, 101, 110, 100, 59, 10] = .ok ⟨1, 0, [([97], [])]⟩ := by decide
 /-- `ntax=-1 nchar=-1` is accepted with one row of one column -/
 theorem nexus_counterexample_minus_one :
-    Nexus.parse ⟨false, false, false, false, false, false⟩ {} [35, 78, 69, 88, 85, 83, 10, 98, 101, 103, 105, 110, 32, 100, 97, 116, 97, 59, 10, 100, 105, 109, 101, 110, 115, 105, 111, 110, 115, 32, 110, 116, 97, 120, 61, 45, 49, 32, 110, 99, 104, 97, 114, 61, 45, 49, 59, 10, 109, 97, 116, 114, 105, 120, 10, 97, 32, 65, 10, 59, 10, 101, 110, 100, 59, 10] = .ok ⟨1, 1, [([97], [65])]⟩ := by decide
+    Nexus.parse ⟨false, false, false, false, false, false, false⟩ {} [35, 78, 69, 88, 85, 83, 10, 98, 101, 103, 105, 110, 32, 100, 97, 116, 97, 59, 10, 100, 105, 109, 101, 110, 115, 105, 111, 110, 115, 32, 110, 116, 97, 120, 61, 45, 49, 32, 110, 99, 104, 97, 114, 61, 45, 49, 59, 10, 109, 97, 116, 114, 105, 120, 10, 97, 32, 65, 10, 59, 10, 101, 110, 100, 59, 10] = .ok ⟨1, 1, [([97], [65])]⟩ := by decide
 theorem nexus_patched_witnesses :
-    Nexus.parse ⟨true, true, true, false, false, false⟩ {} [35, 78, 69, 88, 85, 83, 10, 91] = .error ∧
-    Nexus.parse ⟨true, true, true, false, false, false⟩ {} [35, 78, 69, 88, 85, 83, 10, 98, 101, 103, 105, 110, 32, 100, 97, 116, 97, 59, 10, 109, 97, 116, 114, 105, 120, 10, 97, 32, 10, 59, 10, 101, 110, 100, 59, 10] = .error ∧
-    Nexus.parse ⟨true, true, true, false, false, false⟩ {} [35, 78, 69, 88, 85, 83, 10, 98, 101, 103, 105, 110, 32, 100, 97, 116, 97, 59, 10, 100, 105, 109, 101, 110, 115, 105, 111, 110, 115, 32, 110, 116, 97, 120, 61, 45, 49, 32, 110, 99, 104, 97, 114, 61, 45, 49, 59, 10, 109, 97, 116, 114, 105, 120, 10, 97, 32, 65, 10, 59, 10, 101, 110, 100, 59, 10] = .error := by decide
+    Nexus.parse ⟨true, true, true, false, false, false, false⟩ {} [35, 78, 69, 88, 85, 83, 10, 91] = .error ∧
+    Nexus.parse ⟨true, true, true, false, false, false, false⟩ {} [35, 78, 69, 88, 85, 83, 10, 98, 101, 103, 105, 110, 32, 100, 97, 116, 97, 59, 10, 109, 97, 116, 114, 105, 120, 10, 97, 32, 10, 59, 10, 101, 110, 100, 59, 10] = .error ∧
+    Nexus.parse ⟨true, true, true, false, false, false, false⟩ {} [35, 78, 69, 88, 85, 83, 10, 98, 101, 103, 105, 110, 32, 100, 97, 116, 97, 59, 10, 100, 105, 109, 101, 110, 115, 105, 111, 110, 115, 32, 110, 116, 97, 120, 61, 45, 49, 32, 110, 99, 104, 97, 114, 61, 45, 49, 59, 10, 109, 97, 116, 114, 105, 120, 10, 97, 32, 65, 10, 59, 10, 101, 110, 100, 59, 10] = .error := by decide
 
 /-- a second block with more rows than the first: `names[currentnbseqs]` out of range -/
 theorem clustal_counterexample_panic :
@@ -859,7 +859,7 @@ TREES block is skipped up to its `end;`). -/
 theorem nexus_endblock_ends_block :
     (Nexus.classify [69, 78, 68, 66, 76, 79, 67, 75]).kind = .end_ ∧
     (Nexus.classify [101, 110, 100, 98, 108, 111, 99, 107]).kind = .end_ ∧
-    Nexus.parse ⟨true, true, true, true, true, false⟩ {} nexusEndblockSample = .error ∧
+    Nexus.parse ⟨true, true, true, true, true, false, false⟩ {} nexusEndblockSample = .error ∧
     Spec.Fmt.declaredNexus nexusEndblockSample = (some 9, none) := by decide
 
 /-- `#NEXUS begin data; dimensions ntax=9; begin trees; dimensions ntax=1; matrix a AC ; end;` (no END before the second BEGIN) -/
@@ -874,9 +874,9 @@ the repair (`case BEGIN:` of `parseData` / `parseTaxa` is an error, proposed_fix
 the file is an explicit error.  Reproduce on an unrepaired tree: `goalign reformat fasta --nexus -i <file>` (one
 "unsupported command \"begin\" in block DATA" warning, then `>a / AC`). -/
 theorem nexus_counterexample_nested_begin :
-    Nexus.parse ⟨true, true, true, true, false, false⟩ {} nexusNestedBeginSample = .ok ⟨1, 2, [([97], [65, 67])]⟩ ∧
+    Nexus.parse ⟨true, true, true, true, false, false, false⟩ {} nexusNestedBeginSample = .ok ⟨1, 2, [([97], [65, 67])]⟩ ∧
     Spec.Fmt.declaredNexus nexusNestedBeginSample = (some 9, none) ∧
-    Nexus.parse ⟨true, true, true, true, true, false⟩ {} nexusNestedBeginSample = .error := by decide
+    Nexus.parse ⟨true, true, true, true, true, false, false⟩ {} nexusNestedBeginSample = .error := by decide
 
 /-- `#NEXUS\nbegin dAtA;;dimensions ntAx=3;mAtrix\nA A\n;end;` (an empty command after the block header) -/
 def nexusEmptyCommandSample : List Byte := [35, 78, 69, 88, 85, 83, 10, 98, 101, 103, 105, 110, 32, 100, 65, 116, 65, 59, 59, 100, 105, 109, 101, 110, 115, 105, 111, 110, 115, 32, 110, 116, 65, 120, 61, 51, 59, 109, 65, 116, 114, 105, 120, 10, 65, 32, 65, 10, 59, 101, 110, 100, 59]
@@ -888,19 +888,31 @@ parser never reads the declared count and succeeds with ONE row although the DAT
 thorough tier of the check: `fail:contradicts-header-ntax`).  With the repair (`case ENDOFCOMMAND:` does nothing, /repo
 0d4b69d) the DIMENSIONS command is read and the file is an explicit error. -/
 theorem nexus_counterexample_empty_command :
-    Nexus.parse ⟨true, true, true, true, true, false⟩ {} nexusEmptyCommandSample = .ok ⟨1, 1, [([65], [65])]⟩ ∧
+    Nexus.parse ⟨true, true, true, true, true, false, false⟩ {} nexusEmptyCommandSample = .ok ⟨1, 1, [([65], [65])]⟩ ∧
     Spec.Fmt.declaredNexus nexusEmptyCommandSample = (some 3, none) ∧
-    Nexus.parse ⟨true, true, true, true, true, true⟩ {} nexusEmptyCommandSample = .error := by decide
+    Nexus.parse ⟨true, true, true, true, true, true, false⟩ {} nexusEmptyCommandSample = .error := by decide
+
+/-- `#NEXUS\nbegin dAtA;dimensions nchAr=4;end;begin dAtA;mAtrix\nA A\n;end;` (two DATA blocks) -/
+def nexusTwoDataBlocksSample : List Byte := [35, 78, 69, 88, 85, 83, 10, 98, 101, 103, 105, 110, 32, 100, 65, 116, 65, 59, 100, 105, 109, 101, 110, 115, 105, 111, 110, 115, 32, 110, 99, 104, 65, 114, 61, 52, 59, 101, 110, 100, 59, 98, 101, 103, 105, 110, 32, 100, 65, 116, 65, 59, 109, 65, 116, 114, 105, 120, 10, 65, 32, 65, 10, 59, 101, 110, 100, 59]
+
+set_option maxRecDepth 100000 in
+/-- **a second DATA block.**  Without the repair (`rejectsSecondDataBlock = false`) the second block silently replaces the
+rows and the counts of the first: the file declares `nchar=4` and is accepted with ONE column (found by the command-level
+Nexus generator of the check: `fail:contradicts-header-nchar`).  With the repair (/repo 5042531) it is an explicit error. -/
+theorem nexus_counterexample_second_data_block :
+    Nexus.parse ⟨true, true, true, true, true, true, false⟩ {} nexusTwoDataBlocksSample = .ok ⟨1, 1, [([65], [65])]⟩ ∧
+    Spec.Fmt.declaredNexus nexusTwoDataBlocksSample = (none, some 4) ∧
+    Nexus.parse ⟨true, true, true, true, true, true, true⟩ {} nexusTwoDataBlocksSample = .error := by decide
 
 /-- non-vacuity: `#NEXUS begin data; dimensions ntax=2 nchar=3; format datatype=dna; matrix a ACG / b A-T ; end;` -/
 def nexusSample : List Byte := [35, 78, 69, 88, 85, 83, 10, 98, 101, 103, 105, 110, 32, 100, 97, 116, 97, 59, 10, 100, 105, 109, 101, 110, 115, 105, 111, 110, 115, 32, 110, 116, 97, 120, 61, 50, 32, 110, 99, 104, 97, 114, 61, 51, 59, 10, 102, 111, 114, 109, 97, 116, 32, 100, 97, 116, 97, 116, 121, 112, 101, 61, 100, 110, 97, 59, 10, 109, 97, 116, 114, 105, 120, 10, 97, 32, 65, 67, 71, 10, 98, 32, 65, 45, 84, 10, 59, 10, 101, 110, 100, 59, 10]
 
 set_option maxRecDepth 100000 in
-example : Nexus.parse ⟨true, true, true, true, true, true⟩ {} nexusSample = .ok ⟨1, 3, [([97], [65, 67, 71]), ([98], [65, 45, 84])]⟩ ∧
+example : Nexus.parse ⟨true, true, true, true, true, true, true⟩ {} nexusSample = .ok ⟨1, 3, [([97], [65, 67, 71]), ([98], [65, 45, 84])]⟩ ∧
     Spec.Fmt.declaredNexus nexusSample = (some 2, some 3) := by decide
 -- the reading hypothesis of `nexus_header_consistent_partial` holds on it: the DIMENSIONS loop ends with (2, 3)
 set_option maxRecDepth 100000 in
-example : (match Nexus.topLoop ⟨true, true, true, true, true, true⟩ ((Nexus.sIW nexusSample).2.length + 3) (Nexus.sIW nexusSample).2 {} with
+example : (match Nexus.topLoop ⟨true, true, true, true, true, true, true⟩ ((Nexus.sIW nexusSample).2.length + 3) (Nexus.sIW nexusSample).2 {} with
     | .ok top => top.data.map fun d => (d.ntax, d.nchar)
     | _ => none) = some (2, 3) := by decide
 
